@@ -526,6 +526,20 @@ fn names_main(in_path: &str, out_path: &str) -> Result<(), String> {
                     None => Value::Null,
                 };
                 case.insert("names".into(), names);
+                // manifests: the value tree the concrete parser builds from the rendered text, for the key-level model
+                let syntax = case.get("syntax").and_then(Value::as_str).unwrap_or("").to_string();
+                if matches!(syntax.as_str(), "json" | "yaml" | "toml") {
+                    if let Some(adef) = case.get("adef") {
+                        let tree = match guarded(|| render(adef, &syntax)) {
+                            Ok(Ok(text)) => guarded(|| super::tree::dump(&syntax, &text))
+                                .unwrap_or_else(|p| json!({"$parse_error": format!("parser panicked: {p}")})),
+                            _ => Value::Null,
+                        };
+                        if !tree.is_null() {
+                            case.insert("tree".into(), tree);
+                        }
+                    }
+                }
                 writeln!(out, "{}", Value::Object(case)).map_err(|e| format!("write {out_path}: {e}"))?;
             }
             _ => {
